@@ -166,6 +166,13 @@ class World:
     def call(self, fn):
         """Run fn() with stdout/stderr captured and the function-entry budget armed.
         Returns ('ok', value) | ('exc', exception); captured output is put into self.cap."""
+        if self.opts.get('light'):
+            # thread mode: no global stream swapping, no monitoring (both are process-global)
+            self.cap = ('', '')
+            try:
+                return ('ok', fn())
+            except Exception as e:
+                return ('exc', e)
         out = ClosedStream() if self.stdout_closed else io.StringIO()
         err = io.StringIO()
         so, se = sys.stdout, sys.stderr
